@@ -139,6 +139,7 @@ pub fn liveness_problems(o: &Outcome) -> Vec<(String, String)> {
     let mut v = vec![];
     match &o.verdict {
         Verdict::Deadlock => v.push(("deadlock".to_string(), "logical deadlock: nothing in flight, every result received, done != total — the coordinator can never leave its loop".to_string())),
+        Verdict::HangInDrop => v.push(("deadlock".to_string(), "after an error result the remaining workers block forever inside the result-channel send while the runtime's Drop joins the thread pool: Txtpp::run never returns".to_string())),
         Verdict::MainPanic(m) => v.push(("panic-main".to_string(), format!("the thread calling Txtpp::run panicked: {m}"))),
         _ => {}
     }
